@@ -3,6 +3,7 @@ package ledger
 import (
 	"crypto/sha256"
 	"encoding/json"
+	"errors"
 	"fmt"
 )
 
@@ -31,6 +32,11 @@ func (block *Block) UnmarshalJSON(data []byte) error {
 	err := json.Unmarshal(data, &dto)
 	if err != nil {
 		return err
+	}
+	for _, transaction := range dto.Transactions {
+		if transaction == nil {
+			return errors.New("a transaction of the block is null")
+		}
 	}
 	block.previousHash = dto.PreviousHash
 	block.addedRegisteredAddresses = dto.AddedRegisteredAddresses
